@@ -69,13 +69,13 @@ type cbsite struct {
 }
 
 type summary struct {
-	acc     []access
-	edges   []edge
-	spawns  []spawn
-	cbs     []cbsite
-	escaped map[int]bool
+	acc        []access
+	edges      []edge
+	spawns     []spawn
+	cbs        []cbsite
+	escaped    map[int]bool
 	callsParam map[int]bool
-	untrans []string
+	untrans    []string
 }
 
 type skey struct {
